@@ -16,6 +16,9 @@ import time
 import traceback
 
 ROOT = os.path.dirname(os.path.dirname(os.path.abspath(__file__)))
+# how Engine.feasible asks z3 whether a path is dead: one incremental solver with push/pop / a new solver object per
+# query / a new solver object behind z3's tactic front end. Tried in this order when a worker process dies.
+PRUNE_MODES = ["shared", "fresh", "fresh-tactic"]
 _ENG = None
 _SRC = None
 
@@ -77,6 +80,7 @@ def work(args):
         out["info"] = info
         out["dropped"] = sorted(eng.dropped)
         replayed = {}
+        out["oids_digest"] = hashlib.sha1("\n".join(f"{ob.oid}|{ob.kind}|{ob.expect}" for ob in obs).encode()).hexdigest()
         for oi, ob in enumerate(obs):
             if shard is not None and oi % shard[1] != shard[0]:
                 continue
@@ -158,12 +162,15 @@ def main(argv=None):
     from pyvc import report
     todo = [k for k, c in eng.contracts.items() if prop in c.serves and not c.trusted]
     todo += ["lemma:" + k for k, l in eng.lemmas.items() if prop in l["serves"]]
+    if os.environ.get("PYVC_ONLY"):     # debugging aid: verify only the named contracts (never used by ./check)
+        todo = [k for k in todo if k in os.environ["PYVC_ONLY"].split(",")] or os.environ["PYVC_ONLY"].split(",")
     done, results = set(), []
     ctx = mp.get_context("fork")
-    task_wall = 600 if a.tier == "quick" else 3600
+    task_wall = 1500 if a.tier == "quick" else 3600   # a guard against a hung solver, not a budget: rlimit bounds every query
 
-    def child(key, conn):
+    def child(key, conn, prune):
         try:
+            os.environ["PYVC_PRUNE"] = prune
             conn.send(work((key, a.src, a.tier, seed)))
         except BaseException as e:  # never leave the parent waiting
             conn.send({"key": key, "obligations": [], "info": None, "unsupported": None,
@@ -171,8 +178,18 @@ def main(argv=None):
         finally:
             conn.close()
 
-    running = {}   # key -> (process, parent_conn, start time, attempt)
+    running = {}   # key -> (process, parent_conn, start time)
     attempts = {}
+    # A worker that dies without a result (libz3 has crashed with SIGSEGV inside the shared incremental pruning
+    # solver, smt::context::pop_scope, depending on nothing but memory layout) is not a verdict about the code.
+    # Its contract is verified again from scratch (every shard of it, so that all shards enumerate the same
+    # obligation list) with the next pruning mode; pruning only ever removes paths z3 answers `unsat` for, so the
+    # modes differ in cost, not in what is proved. Only when the last mode has died too is it a CHECKER-ERROR.
+    mode_of = {}   # base contract key -> index into PRUNE_MODES
+    fallbacks = {}
+
+    def base_of(k):
+        return k.rsplit("#", 1)[0] if "#" in k else k
 
     def expand(k):
         c = eng.contracts.get(k)
@@ -187,12 +204,14 @@ def main(argv=None):
             if k in done or k in running:
                 continue
             pc, cc = ctx.Pipe(duplex=False)
-            pr = ctx.Process(target=child, args=(k, cc), daemon=True)
+            pr = ctx.Process(target=child, args=(k, cc, PRUNE_MODES[mode_of.get(base_of(k), 0)]), daemon=True)
             pr.start()
             cc.close()
             attempts[k] = attempts.get(k, 0) + 1
             running[k] = (pr, pc, time.time())
         for k, (pr, pc, t1) in list(running.items()):
+            if k not in running:    # killed below together with a sibling shard that died
+                continue
             r = None
             if pc.poll(0.02):
                 try:
@@ -211,9 +230,19 @@ def main(argv=None):
                 continue
             pr.join(timeout=5)
             del running[k]
-            if (r.get("error") or "").startswith("worker") and attempts[k] < 2:
-                queue.append(k)   # one retry for a worker that vanished
-                continue
+            if (r.get("error") or "").startswith("worker"):
+                base = base_of(k)
+                if mode_of.get(base, 0) + 1 < len(PRUNE_MODES):
+                    mode_of[base] = mode_of.get(base, 0) + 1
+                    fallbacks[base] = {"mode": PRUNE_MODES[mode_of[base]], "after": f"{k}: {r['error']}"}
+                    for k2 in [x for x in running if base_of(x) == base]:
+                        running[k2][0].kill()
+                        running[k2][0].join(timeout=5)
+                        del running[k2]
+                    shard_parts.pop(base, None)
+                    done.difference_update([x for x in done if base_of(x) == base])
+                    queue[:] = [x for x in queue if base_of(x) != base] + expand(base)
+                    continue
             done.add(k)
             if "#" in k:
                 base, sh = k.rsplit("#", 1)
@@ -226,8 +255,11 @@ def main(argv=None):
                 r["key"] = base
                 r["obligations"] = [o for p_ in parts for o in p_.get("obligations", [])]
                 r["error"] = next((p_["error"] for p_ in parts if p_.get("error")), None)
+                if r["error"] is None and len({p_.get("oids_digest") for p_ in parts}) != 1:
+                    r["error"] = "the shards of this contract enumerated different obligation lists"
                 r["unsupported"] = next((p_["unsupported"] for p_ in parts if p_.get("unsupported")), None)
                 done.add(base)
+            r["prune_mode"] = PRUNE_MODES[mode_of.get(base_of(r["key"]), 0)]
             results.append(r)
             # assume-guarantee closure: every callee contract that was assumed must itself be
             # discharged on this run, unless it is a trusted external
@@ -238,6 +270,7 @@ def main(argv=None):
                         and not any(rk.startswith(callee + "#") for rk in running) and callee not in shard_parts:
                     queue.extend(expand(callee))
     enum_results = run_enumerators(eng, prop, a, seed, results, ctx)
+    a.worker_fallbacks = fallbacks
     return report.finish(eng, prop, a, seed, results, time.time() - t0, enum_results)
 
 
